@@ -1,5 +1,6 @@
 """C19 — tree query helpers agree with the tree (structural induction over the enum definitions)."""
 import json
+import re
 import os
 
 from .. import facts as F
@@ -134,6 +135,36 @@ def run(c, facts, tier):
     c.ob("C19.frames", ff.key, "recursive exists over every operator variant", r2["ok"], "; ".join(r2["problems"]) or "recursion is complete; the wildcard hides only %s" % r2["hidden"])
     lp = frames_leaf(facts, r2["leaf"], fspec)
     c.ob("C19.frames", ff.key, "per-action rule equals the statement", not lp, "; ".join(lp) or "file-writing ×4 and PrintNull → true; PrintFormatted → last element exists and is not Special(Newline); others → false")
+    # the method names the rules above read (`last`, `is_some_and`, ...) mean what they say only if they resolve to the
+    # standard library: on the type-checked program, every call made from the two helpers goes either to std/core/alloc or
+    # to a crate function the induction has accounted for
+    from .. import mir as _mir
+
+    m_ = _mir.load(True)
+    for fnx, rr in ((fa, r), (ff, r2)):
+        acc = set(rr.get("accounted") or [fnx.key])
+        local = m_.data.get("crate")
+        foreign = []
+        nb = 0
+        for pth, bd in m_.bodies.items():
+            own = _mir.e1_key(pth, facts)
+            if own not in acc:
+                continue
+            nb += 1
+            for cl in bd["calls"]:
+                tgt = cl["resolved"] or cl["callee"]
+                if cl.get("crate") == local or tgt in m_.bodies:
+                    k_ = _mir.e1_key(tgt, facts) or tgt
+                    if k_ not in acc and not re.search(r"\{closure#\d+\}$", tgt):
+                        foreign.append("%s (line %s)" % (k_, cl.get("line")))
+        c.ob(
+            "C19.frames" if fnx is ff else "C19.action",
+            fnx.key,
+            "method calls resolve to the standard library or to the recursion itself",
+            nb >= 1 and not foreign,
+            "%d bodies of the resolved program examined; calls into other crate functions: %s" % (nb, sorted(set(foreign)) or "none") + ("" if not foreign else " — a name the rule reads as a std method (e.g. `last`) is bound to crate code with its own meaning"),
+            witness="-printf '%p\\n\\c'" if foreign else None,
+        )
     # operator arity agrees with the enum (so 'every sub-expression' is well defined)
     for v in facts.enum("Operator")["variants"]:
         n = len(v["fields"])
